@@ -24,15 +24,18 @@ Definition failed_invisible_live_outside_known_stmt : Prop :=
     entries_of s i = [] /\ visible_of s i = [].
 
 (* ---- pipeline_not_poisoned ---- *)
-(* plain statement (invariant in_flight <= permits < slots): the queue never overflows *)
+(* the invariant in_flight <= permits < slots, for EVERY interleaving: the queue never overflows and every
+   queue entry is covered by a held permit (since the repair of C15-N9 a failing commit keeps its permit
+   until its entry has been dequeued) *)
 Definition pipeline_not_poisoned_stmt : Prop :=
+  PERMITS < SLOTS ->
   forall t s, reach t s -> p_panic s = false /\ length (p_q s) + p_free s <= PERMITS.
 
 (* the four complete commit() paths of one committer *)
 Definition commit_paths (i cnt k : nat) : list (list label) :=
   [ [LAcquire i; LConflict i];
-    [LAcquire i; LEnqueue i cnt; LWalFail i];
-    [LAcquire i; LEnqueue i cnt; LApplyFail i k];
+    [LAcquire i; LEnqueue i cnt; LWalFail i; LFinish i];
+    [LAcquire i; LEnqueue i cnt; LApplyFail i k; LFinish i];
     [LAcquire i; LEnqueue i cnt; LApplyOk i; LFinish i] ].
 
 (* sequential use: whatever the outcome of a commit, the queue slot and the permit are released *)
@@ -42,16 +45,5 @@ Definition pipeline_not_poisoned_sequential_stmt : Prop :=
     In tr (commit_paths i cnt k) ->
     exists s', prun SLOTS s tr = Some s' /\ idle PERMITS s' = true /\
                (forall j, j <> i -> ph_get j (p_ph s') = ph_get j (p_ph s)).
-
-(* traces without an early release *)
-Fixpoint prun_ne (s : pst) (t : list label) : option pst :=
-  match t with
-  | [] => Some s
-  | l :: r => if early_release s l then None
-              else match pstep SLOTS s l with Some s1 => prun_ne s1 r | None => None end
-  end.
-Definition pipeline_not_poisoned_outside_known_stmt : Prop :=
-  PERMITS < SLOTS ->
-  forall t s, prun_ne (p0 PERMITS) t = Some s -> p_panic s = false /\ length (p_q s) + p_free s <= PERMITS.
 
 End PipeFailSpec.
